@@ -32,8 +32,10 @@ def run_C17(ctx):
                 "\tgoogle.golang.org/protobuf v1.28.0\n)\n\nreplace github.com/bufbuild/connect-go => %s\n" % core.REPO)
     shutil.copy(os.path.join(core.REPO, "go.sum"), os.path.join(root, "go.sum"))
     build_ids = set(range(len(scen))) if not quick else set(ctx.rng.sample(range(len(scen)), min(len(scen), 160)))
-    # every keyword-named method is always compiled
+    # services whose generated identifiers meet (MC_Gen InitD) are always compiled: the defect there is a type error
     for i, s in enumerate(scen):
+        if {sv["name"] for sv in s["services"]} & {"NewFoo", "UnimplementedX", "foo", "New_Foo"}:
+            build_ids.add(i)
         s["build"] = i in build_ids
     scen.append(dict(golden=True, pkg="", services=[], gopkg="", deprecated=False, build=False))
     env = dict(VERIF_PLUGIN=plugin, VERIF_GEN_ROOT=root, VERIF_REPO=core.REPO)
